@@ -200,6 +200,17 @@ def xml_to_tupletree_sax(xml_string, meaning, conn_id=None):
             conn_id=conn_id)
         raise pe.with_traceback(org_tb)  # ignore this call in traceback!
 
+    except (LookupError, ValueError) as exc:
+        # Despite its documentation, xml.sax.parseString() lets LookupError,
+        # ValueError and UnicodeError (a ValueError) escape for XML
+        # declarations that name an unknown or unsupported encoding (e.g.
+        # encoding="utf-7", "big5", "rot13").
+        raise XMLParseError(
+            _format("XML parsing error encountered in {0}: Unknown or "
+                    "unsupported encoding in XML declaration: {1}",
+                    meaning, exc),
+            conn_id=conn_id)
+
     return handler.root
 
 
